@@ -600,6 +600,8 @@ func evalIterateStmt(vm *r.VM, node *syntax.IterateStmt) error {
 	// execIterationBlock, including set "currentKey" and "currentValue" to scope,
 	// and preDefined indication variables
 	execIterationBlockFn := func(key r.Element, v r.Element) error {
+		// the loop variable gets its own copy of the element, like any other assignment
+		v = value.DuplicateValue(v)
 		// set pre-defined value
 		if nameLen == 1 {
 			if err := vm.SetElement(valueSlot, v); err != nil {
